@@ -41,6 +41,8 @@ def mk_vector(cells, style):
 def observe(vectors, style, via):
     try:
         vs = [mk_vector(v, style + i) for i, v in enumerate(vectors)]
+        before = [(np.ma.getdata(v).tobytes(), np.ma.getmaskarray(v).tobytes()) for v in vs]
+        r = None
         if via == "compare":
             r = qartod.qartod_compare(vs)
         elif via == "aggregate":
@@ -53,7 +55,12 @@ def observe(vectors, style, via):
                                     for i, v in enumerate(vs)]
             st.compute_aggregate()
             r = st.collected_results[-1].results
-        return sut.canon_result(r)
+        o = sut.canon_result(r)
+        after = [(np.ma.getdata(v).tobytes(), np.ma.getmaskarray(v).tobytes()) for v in vs]
+        changed = [i for i, (b, a) in enumerate(zip(before, after)) if a != b]
+        if changed:
+            o["inputs_modified"] = changed
+        return o
     except Exception as e:  # noqa: BLE001
         return sut.err_obs(e)
 
@@ -62,7 +69,7 @@ def run(out: Outcome, drv):
     out.rule = ("all columns of height <= 3 over the 7-symbol cell alphabet {1,2,3,4,9,non-flag,masked} (exhaustive, packed into "
                 "vectors), random k<=6 vectors of length <=30, masked cells built with masked_all, with flag-valued junk "
                 "under the mask and with a flag as fill_value, every case also permuted / duplicated / regrouped on the real qartod_compare, and run through "
-                "aggregate() and PandasStore.compute_aggregate(); non-trivial = result has >= 2 distinct flags")
+                "aggregate() and PandasStore.compute_aggregate(), input vectors compared byte for byte before / after the call; non-trivial = result has >= 2 distinct flags")
     cases = []
     # exhaustive columns of height 1..3
     for h in (1, 2, 3):
@@ -85,6 +92,10 @@ def run(out: Outcome, drv):
     for (v, s, via), o, a in zip(cases, obs, ans):
         case = {"vectors": v, "style": s, "via": via}
         out.record(case, "flags" in o and len(set(o["flags"])) >= 2, [f"via:{via}", f"k:{len(v)}"])
+        if o.get("inputs_modified"):
+            out.violation(f"{WHAT}: the aggregation wrote into its input vector(s) {o['inputs_modified']} — aggregating any other "
+                          "grouping of the same arrays afterwards (C04_assoc / C04_perm) no longer reports their flags",
+                          {"case": jsonable(case), "observed": o})
         if not a["holds"] or o.get("masked"):
             out.violation(f"{WHAT}: observed {o} vs worst-flag spec {a['spec']}",
                           {"case": jsonable(case), "observed": o, "model": a["model"], "spec": a["spec"]})
